@@ -21,7 +21,13 @@ MUTANTS = [
     ("fix-flag-inverted", G, "        fix = \"true\" if self.fix else \"false\"", "        fix = \"false\" if self.fix else \"true\"", "C19.2"),
     ("py-free-arm-swapped", G, "            f'Variable(\"{self!s}_r\", {self.amp.real:.6})'\n            if self.fix\n            else", "            f'Variable(\"{self!s}_r\", {self.amp.real:.6})'\n            if not self.fix\n            else", "C19.2"),
     ("intro-py-misses-width", G, "            header += (\n                \"{name:15} = Variable({nameQ:21}, {particle.width:<10.8g})\\n\".format(\n                    name=name + \"_W\", nameQ='\"' + name + '_W\"', particle=particle\n                )\n            )\n", "", "C19"),
+    ("py-docstring-never-closed", C, "    printer(r\"'''\")\n    printer(\"\\n#Intro", "    printer(\"\\n#Intro", "C19.9"),
+    ("py-amplitudes-never-handed-over", C, '    printer("DK3P_DI.amplitudes = amplitudes_list")', '    pass', "C19.9"),
+    ("cpp-report-after-comment", C, "    printer(\"\\n*/\\n\\n    // Intro\")\n    printer(GooFitChain.make_intro(all_states))", "    printer(\"\\n*/\\n\\n    // Intro\")\n    printer(\"lines:\", len(lines))\n    printer(GooFitChain.make_intro(all_states))", "C19.9"),
+    ("py-invalid-literal-outside", C, '    printer("\\n\\n# Parameters")', '    printer("\\n\\nParameters:")', "C19.9"),
+    ("buffer-when-not-returned", C, "    if ret_output:\n        output = StringIO()\n        printer = partial(print, file=output)\n    else:\n        printer = print\n\n    lines, all_states = GooFitChain", "    if not ret_output:\n        output = StringIO()\n        printer = partial(print, file=output)\n    else:\n        printer = print\n\n    lines, all_states = GooFitChain", "C19.1"),
 ]
 BENIGN = [
+    ("py-extra-comment-literal", C, '    printer("\\n\\n# Parameters")', '    printer("\\n\\n# Parameters")\n    printer("# (fit parameters)")'),
     ("printer-extra-literal", C, '    printer("DK3P_DI.amplitudes = amplitudes_list")', '    printer("DK3P_DI.amplitudes = amplitudes_list")\n    printer("# end")'),
 ]
